@@ -168,6 +168,89 @@ template <int I1, int L1, int I2, int L2, size_t N, class V, size_t BND> static 
     vf_observe_u64(lt.get_backend().m_size);
 }
 
+// the MOVING conversion field<BT>(field<BF>&&): the target is the same field (configuration, every lattice value, storage of
+// the right length, serialisable); the moved-from source stays destructible; nothing is leaked or freed twice
+template <int FROM, int TO, size_t N, class V, size_t BND> static void conv_move_h()
+{
+    using BF = typename layout_of<FROM, N, V>::type;
+    using BT = typename layout_of<TO, N, V>::type;
+    using S = typename V::type;
+    constexpr size_t M = V::size;
+    utility::nd_size<N> s;
+    for (size_t k = 0; k < N; k++) s[k] = vf_nondet_range(1, BND);
+    size_t live0 = vf_heap_live();
+    {
+        field<BF> f(make_parameter_pack(make_storage<BF, N>(s)));
+        fill<BF, N, S, M>(const_cast<typename BF::owning_data_t &>(f.backend()), s);
+        typename field<BF>::coordinate_t p;
+        for (size_t k = 0; k < N; k++) { size_t a = vf_nondet_size(); vf_assume(a < s[k]); p[k] = a; }
+        S before[M];
+        {
+            typename field<BF>::view_t vf_(f);
+            for (size_t j = 0; j < M; j++) before[j] = vf_.at(p)[j];
+        }
+        field<BT> t(std::move(f));
+        typename field<BT>::view_t vt(t);
+        bool cfg = true;
+        for (size_t k = 0; k < N; k++) cfg = cfg && t.backend().get_configuration()[k] == s[k];
+        vf_assert(cfg, 1);
+        typename field<BT>::coordinate_t q;
+        for (size_t k = 0; k < N; k++) q[k] = p[k];
+        for (size_t j = 0; j < M; j++) vf_assert(vf::same_bits<S>(vt.at(q)[j], before[j]), 2);
+        size_t need = 1, mx = 0;
+        for (size_t k = 0; k < N; k++) { need *= s[k]; mx = s[k] > mx ? s[k] : mx; }
+        if constexpr (TO != 0) need = utility::ipow(utility::round_pow2(mx), N);
+        vf_assert(t.backend().get_backend().get_configuration()[0] == need, 8);
+        std::ostream * os = vf_ostream();
+        t.dump(*os);
+        field<BF> back(t);
+        typename field<BF>::view_t vb(back);
+        for (size_t j = 0; j < M; j++) vf_assert(vf::same_bits<S>(vb.at(p)[j], before[j]), 5);
+        vf_observe_u64(t.backend().get_backend().m_size);
+    }
+    vf_assert(vf_heap_live() == live0, 7);
+}
+
+template <int I1, int L1, int I2, int L2, size_t N, class V, size_t BND> static void stack_move_h()
+{
+    using LF = typename layout_of<L1, N, V>::type;
+    using LT = typename layout_of<L2, N, V>::type;
+    using SF = backend::affine<typename interp_of<I1, LF>::type>;
+    using ST = backend::affine<typename interp_of<I2, LT>::type>;
+    using S = typename V::type;
+    constexpr size_t M = V::size;
+    utility::nd_size<N> s;
+    for (size_t k = 0; k < N; k++) s[k] = vf_nondet_range(1, BND);
+    typename SF::configuration_t m;
+    for (size_t i = 0; i < N; i++)
+        for (size_t j = 0; j < N + 1; j++) m(i, j) = vf_nondet_f32();
+    size_t live0 = vf_heap_live();
+    {
+        auto storage = make_storage<LF, N>(s);
+        fill<LF, N, S, M>(storage, s);
+        field<SF> f(make_parameter_pack(typename SF::configuration_t(m), std::monostate{}, std::move(storage)));
+        typename LF::contravariant_input_t::vector_t p0;
+        typename LT::contravariant_input_t::vector_t q0;
+        for (size_t k = 0; k < N; k++) { size_t a = vf_nondet_size(); vf_assume(a < s[k]); p0[k] = a; q0[k] = a; }
+        S snap[M];
+        {
+            typename LF::non_owning_data_t v0(f.backend().get_backend().get_backend());
+            for (size_t j = 0; j < M; j++) snap[j] = v0.at(p0)[j];
+        }
+        field<ST> t(std::move(f));
+        bool cfg = true;
+        for (size_t i = 0; i < N; i++)
+            for (size_t j = 0; j < N + 1; j++) cfg = cfg && vf::same_bits<float>(t.backend().get_configuration()(i, j), m(i, j));
+        vf_assert(cfg, 1);
+        const auto & lt = t.backend().get_backend().get_backend();
+        for (size_t k = 0; k < N; k++) vf_assert(lt.get_configuration()[k] == s[k], 2);
+        typename LT::non_owning_data_t vt(lt);
+        for (size_t j = 0; j < M; j++) vf_assert(vf::same_bits<S>(vt.at(q0)[j], snap[j]), 3);
+        vf_observe_u64(lt.get_backend().m_size);
+    }
+    vf_assert(vf_heap_live() == live0, 7);
+}
+
 extern "C" void vf_main()
 {
     VF_INST;
